@@ -268,12 +268,17 @@ func checkC18(raw json.RawMessage) (ev.Result, error) {
 			}
 		} else {
 			loaded = p
-			if len(p.Syscalls) != 1 {
-				return res, fmt.Errorf("the emitted profile has %d groups, want one allow group", len(p.Syscalls))
+			if len(p.Syscalls) == 0 {
+				return res, fmt.Errorf("the emitted profile has no group")
 			}
-			got = p.Syscalls[0].Names
-			if p.DefaultAction != seccomp.ActionErrno || p.Syscalls[0].Action != seccomp.ActionAllow {
-				return res, fmt.Errorf("the emitted profile has default action %v and group action %v, want errno / allow", p.DefaultAction, p.Syscalls[0].Action)
+			if p.DefaultAction != seccomp.ActionErrno {
+				return res, fmt.Errorf("the emitted profile has default action %v, want errno", p.DefaultAction)
+			}
+			for _, g := range p.Syscalls {
+				if g.Action != seccomp.ActionAllow || len(g.NamesWithCondtions) != 0 {
+					return res, fmt.Errorf("the emitted profile has a group with action %v / conditions, want plain allow groups", g.Action)
+				}
+				got = append(got, g.Names...)
 			}
 		}
 	} else {
